@@ -2,6 +2,7 @@ package checks
 
 import (
 	"fmt"
+	"strings"
 	"time"
 
 	"github.com/influxdata/influxql"
@@ -24,7 +25,7 @@ func countNodes(e influxql.Expr) (nodes, timeLeaves int) {
 		nodes++
 		if b, ok := n.(*influxql.BinaryExpr); ok {
 			for _, side := range []influxql.Expr{b.LHS, b.RHS} {
-				if v, ok := side.(*influxql.VarRef); ok && (v.Val == "time" || v.Val == "TIME" || v.Val == "Time" || v.Val == "tIME") {
+				if v, ok := side.(*influxql.VarRef); ok && strings.EqualFold(v.Val, "time") {
 					timeLeaves++
 				}
 			}
@@ -92,6 +93,12 @@ func c18One(c *Ctx, idx int, local map[string]int64) {
 		text += " WHERE " + cond.render()
 	}
 	text += " GROUP BY time(1m)"
+	if rg.P(0.3) {
+		// the statement's own zone: the planner splits its condition with a
+		// valuer that reports it, and the windows are instants all the same
+		text += " TZ('" + rg.Pick("America/New_York", "Asia/Kolkata", "UTC", "Pacific/Auckland") + "')"
+		local["with-tz"]++
+	}
 	wins := c18Windows(rg)
 	det := func(why string, k int) map[string]interface{} {
 		return map[string]interface{}{"idx": idx, "input": text, "windows": fmt.Sprint(wins), "call": k, "why": why}
@@ -142,7 +149,12 @@ func c18One(c *Ctx, idx int, local map[string]int64) {
 			r.Violation("SetTimeRange-error", det(serr.Error(), k+1))
 			return
 		}
-		resid, tr, cerr := influxql.ConditionExpr(sel.Condition, nil)
+		var obs influxql.Valuer
+		if sel.Location != nil && k%2 == 0 {
+			obs = &influxql.NowValuer{Now: fixedNow, Location: sel.Location}
+			local["observed-with-zone-valuer"]++
+		}
+		resid, tr, cerr := influxql.ConditionExpr(sel.Condition, obs)
 		if cerr != nil {
 			if known() {
 				return
@@ -195,7 +207,7 @@ func c18One(c *Ctx, idx int, local map[string]int64) {
 
 func checkC18(c *Ctx) (string, bool, []string) {
 	r := c.R
-	rule := "initial conditions: none, conjunctions of 0-3 time bounds (time on either side, any letter case, integer / RFC3339 / date / date-time / duration / now()-relative) with 0-3 other sub-trees (AND, OR, parentheses), or a top-level OR of non-time predicates; sequences of 1-8 windows (ascending continuous-query style incl. 1ns and 250ms buckets, random, repeated, empty and sub-second, at the representable extremes). After every SetTimeRange the statement is observed through ConditionExpr: exact range, exactly two time comparisons, constant node count from the first call on, and agreement with (start <= t < end) AND non-time-part on every probe point. Non-trivial = history of at least one call; distinct by (statement, windows)."
+	rule := "initial conditions: none, conjunctions of 0-3 time bounds (time on either side, any letter case, quoted, with a ::type cast, integer / RFC3339 / date / date-time / duration / now()-relative) with 0-3 other sub-trees (AND, OR, parentheses), or a top-level OR of non-time predicates; sequences of 1-8 windows (ascending continuous-query style incl. 1ns and 250ms buckets, random, repeated, empty and sub-second, at the representable extremes). A third of the statements carry a TZ clause and are observed alternately without a valuer and with a valuer reporting the statement zone. After every SetTimeRange the statement is observed through ConditionExpr: exact range, exactly two time comparisons, constant node count from the first call on, and agreement with (start <= t < end) AND non-time-part on every probe point. Non-trivial = history of at least one call; distinct by (statement, windows)."
 	assume := []string{"observation through ConditionExpr as the property prescribes", "calls other than now() do not occur in the generated conditions (SetTimeRange replaces every call by true)"}
 	if c.Replay != nil {
 		c18One(c, replayInt(c, "idx"), map[string]int64{})
